@@ -25,7 +25,7 @@ from ..dataflow import Resolver as ExprResolver
 from ..dataflow import expr_leaves, flow_of
 from ..engine import Context, Reporter
 from ..model import AnalysisError, ClassInfo, FuncInfo, dotted, norm_text, walk_no_nested
-from ..util import call_arg, calls_in, calls_in_node, conds_holding_at, is_none_test, is_const, nodes_calling, strip_wrappers, unparse
+from ..util import call_arg, calls_in, calls_in_node, conds_holding_at, is_none_test, is_const, nodes_calling, strip_wrappers, unparse, const_value
 
 PROP = "C08"
 EXPLANATION = (
@@ -300,7 +300,8 @@ def rule_b(ctx: Context, R: Reporter):
 
 
 # ------------------------------------------------------------------ C08.c
-RENAMES = ("os.rename", "os.replace", "shutil.move")
+RENAMES = ("os.rename", "os.replace")
+NON_ATOMIC_MOVES = ("shutil.move", "shutil.copy", "shutil.copy2", "shutil.copyfile")
 
 
 def blob_writers(ctx: Context) -> List[Tuple[FuncInfo, ast.Call]]:
@@ -332,14 +333,37 @@ def rule_c(ctx: Context, R: Reporter):
         if not isinstance(handle, ast.Name):
             raise AnalysisError(f"C08.c: {fi.short}: dump target `{unparse(handle)}` is not a simple handle name")
         hdefs = flow.reaching(dn, handle.id)
-        if len(hdefs) != 1 or hdefs[0].kind != "with" or dotted(hdefs[0].value.func if isinstance(hdefs[0].value, ast.Call) else hdefs[0].value) != "open":
+        # a non-atomic move onto the final name (copy + delete across file systems) is never acceptable
+        for c2 in calls_in(fi.node):
+            if (ctx.res.external_name(fi, c2) or "") in NON_ATOMIC_MOVES:
+                R.check("C08.c", "the temporary file is moved onto the final name atomically (os.replace / os.rename)", False, fi, c2,
+                        msg=f"{fi.short}: `{unparse(c2)[:60]}` is not an atomic rename: across file systems it copies into the final name (truncating a good checkpoint first, "
+                            f"without fsync), so a crash during the move leaves an unloadable file", key="non-atomic-move")
+        opener = dotted(hdefs[0].value.func) if len(hdefs) == 1 and isinstance(hdefs[0].value, ast.Call) else ""
+        opener_ext = (ctx.res.external_name(fi, hdefs[0].value) or "") if len(hdefs) == 1 and isinstance(hdefs[0].value, ast.Call) else ""
+        if len(hdefs) != 1 or hdefs[0].kind != "with" or not (opener == "open" or opener_ext == "tempfile.NamedTemporaryFile"):
             raise AnalysisError(f"C08.c: {fi.short}: handle `{handle.id}` is not bound by `with open(...)` (unmodelled idiom)")
         open_call: ast.Call = hdefs[0].value
         with_node = hdefs[0].node
-        mode = call_arg(open_call, 1, "mode")
+        if opener_ext == "tempfile.NamedTemporaryFile":
+            final_params0 = [p for p in fi.params if p not in ("self", "cls")]
+            dkw = next((k.value for k in open_call.keywords if k.arg == "dir"), None)
+            drx = ExprResolver(fi.node).resolve(dkw, with_node) if dkw is not None else None
+            near = drx is not None and any(isinstance(x, ast.Name) and x.id in final_params0 for x in ast.walk(drx))
+            keep = any(k.arg == "delete" and const_value(k.value) is False for k in open_call.keywords)
+            R.check("C08.c", "a NamedTemporaryFile used for the checkpoint lives next to the final name and survives close", near and keep, fi, open_call,
+                    msg=f"{fi.short}: `{unparse(open_call)[:70]}` creates the temporary file " + ("in the system temp directory (no dir= derived from the checkpoint path): the move onto "
+                        "the final name crosses file systems and is not atomic" if not near else "with delete=True"), key="tempfile-next-to-final")
+            mode = call_arg(open_call, 0, "mode")
+            opened = ast.Attribute(value=ast.Name(id=handle.id, ctx=ast.Load()), attr="name", ctx=ast.Load())
+            tempfile_mode = True
+        else:
+            tempfile_mode = False
+            mode = call_arg(open_call, 1, "mode")
         if not (isinstance(mode, ast.Constant) and isinstance(mode.value, str) and ("w" in mode.value or "a" in mode.value or "x" in mode.value)):
             continue  # not a writer
-        opened = call_arg(open_call, 0, "file")
+        if not tempfile_mode:
+            opened = call_arg(open_call, 0, "file")
         # final name = the path parameter of the function
         final_params = [p for p in fi.params if p not in ("self", "cls")]
         rs = ExprResolver(fi.node)
@@ -347,7 +371,7 @@ def rule_c(ctx: Context, R: Reporter):
         stripped = strip_wrappers(opened_res)
         is_final = isinstance(stripped, ast.Name) and stripped.id in final_params
         derived = any(isinstance(x, ast.Name) and x.id in final_params for x in ast.walk(opened_res))
-        ok_temp = (not is_final) and derived
+        ok_temp = ((not is_final) and derived) or tempfile_mode
         R.check(
             "C08.c", "checkpoint is written to a temporary name, never directly to the final name", ok_temp, fi, open_call,
             msg=f"`{unparse(open_call)}` opens {'the final checkpoint name' if is_final else 'a name not derived from the final path'} for writing: "
